@@ -705,7 +705,7 @@ func (m *InterfaceManager) doConnect(task *state.Task, _ *tomb.Tomb) (err error)
 	return nil
 }
 
-func (m *InterfaceManager) doDisconnect(task *state.Task, _ *tomb.Tomb) error {
+func (m *InterfaceManager) doDisconnect(task *state.Task, _ *tomb.Tomb) (err error) {
 	st := task.State()
 	st.Lock()
 	defer st.Unlock()
@@ -765,6 +765,15 @@ func (m *InterfaceManager) doDisconnect(task *state.Task, _ *tomb.Tomb) error {
 		}
 		return fmt.Errorf("snapd changed, please retry the operation: %v", err)
 	}
+	// mirror of doConnect: if anything below fails, put the connection
+	// back, otherwise the repository and the "conns" state disagree
+	defer func() {
+		if err != nil {
+			if _, rerr := m.repo.Connect(&cref, nil, conn.DynamicPlugAttrs, nil, conn.DynamicSlotAttrs, nil); rerr != nil {
+				logger.Noticef("cannot restore connection after failed disconnect: %v", rerr)
+			}
+		}
+	}()
 
 	for _, snapst := range snapStates {
 		snapInfo, err := snapst.CurrentInfo()
